@@ -53,10 +53,14 @@ func readVia(src io.Reader, via string, validate, emitInvalid, skipMagic bool) *
 			o.toks = append(o.toks, m)
 		}
 		o.end, o.err = lr.End, lr.Err
-	case "scan", "idx", "idxlog", "idxrlog":
+	case "scan", "idx", "idxlog", "idxrlog", "def":
 		use := via != "scan"
-		order := map[string]string{"scan": "", "idx": "file", "idxlog": "log", "idxrlog": "rlog"}[via]
-		ir := run.Iterate(src, run.IterOpts{UseIndex: &use, Order: order, MdCallback: true})
+		order := map[string]string{"scan": "", "idx": "file", "idxlog": "log", "idxrlog": "rlog", "def": ""}[via]
+		useP := &use
+		if via == "def" { // Reader.Messages() with its defaults: the index when the summary allows it, else the scan
+			useP = nil
+		}
+		ir := run.Iterate(src, run.IterOpts{UseIndex: useP, Order: order, MdCallback: true})
 		for _, t := range ir.Msgs {
 			o.kinds = append(o.kinds, "Message")
 			o.short = append(o.short, false)
@@ -347,8 +351,11 @@ func readCases(tr *wl.Trace, mode, only string, w wl.Workload, b []byte, f *refm
 		tr.Add(wl.Ev{"ev": "Full", "via": "lex", "validate": v, "n": len(fl.o.canon), "kinds": kindsAny(fl.o.kinds), "end": fl.o.end})
 	}
 	vias := []string{"scan"}
-	if mode == "frag" || mode == "fault" {
+	if mode == "frag" || mode == "fault" || mode == "callfault" {
 		vias = append(vias, "idx", "idxlog")
+	}
+	if mode == "callfault" {
+		vias = append(vias, "def")
 	}
 	for _, via := range vias {
 		fo := readVia(bytes.NewReader(b), via, false, false, false)
@@ -412,6 +419,34 @@ func readCases(tr *wl.Trace, mode, only string, w wl.Workload, b []byte, f *refm
 					e["fired"] = src.Fired
 					return e
 				})
+			}
+		}
+	case "callfault":
+		// a one-shot or persistent I/O error at the k-th call on the source, Seek calls included (seekable sources only:
+		// the stream-only paths see nothing that the byte-position faults do not already cover)
+		for _, r := range refs {
+			if r.via == "lex" {
+				continue
+			}
+			seekable := r.via != "scan" || true
+			probe := run.NewSource(b, "full", 0, -1)
+			readVia(probe, r.via, r.validate, false, false)
+			W := probe.Calls
+			for k := 0; k < W; k++ {
+				if !want(only, "call", k) {
+					continue
+				}
+				for _, perm := range []bool{false, true} {
+					r, k, perm := r, k, perm
+					add(func() wl.Ev {
+						src := run.NewSource(b, "full", 0, -1)
+						src.FaultCall, src.FaultPermanent = k, perm
+						e := readEvent("Fault", src, r.via, r.validate, false, false, r.o, r.toks, wl.Ev{"at": -1, "call": k, "permanent": perm, "seekable": seekable})
+						e["fired"] = src.Fired
+						e["onseek"] = src.FiredOnSeek
+						return e
+					})
+				}
 			}
 		}
 	case "flip":
